@@ -8,6 +8,11 @@ CHECKS = {
         text="Algebra.tla enumerates every pair of single-entry basis operands of every shape <= MaxDim (a bilinear routine is determined by them) plus a catalogue x exponent pairs; TLC computes each expected product/conjugate transpose/norm from the definition and checks the algebraic laws as invariants; every state is replayed through all six storage paths of the code with exact comparison. Recorded random integer calls are recomputed by TLC; float calls are bounded in units.",
         note="Trusted: numpy-quaternion dtype conversion, the harness' projection code, TLC. Sizes <= 3 (exhaustive) and <= 5 (sampled); rounding-level accuracy only bounded (64 units).",
         design_ref="5/C01"),
+    "C07": dict(
+        technique="exact TLA+ model of Gaussian elimination (LU.tla) over all forced pivot orders, replayed bit-exactly into quaternion_lu; LUTrace.tla monitors recorded random runs",
+        text="LU.tla executes the elimination action by action (PivotSearch, Swap, Scale, Update, ZeroPivot, Assemble3, Assemble2) in exact scaled-integer arithmetic on inputs constructed to force each of the m! interchange sequences (m <= 4 quick, 5 thorough), three shapes per m, singular columns included; TLC checks PA=LU, A=L2U, unit-lower/|mult|<=1, upper, permutation and raise-iff-singular as invariants; every terminal state is replayed into the code in both modes and compared exactly. Random float/integer/rank-deficient inputs are validated by LUTrace.tla (permutation, L2 = P^T L row map, residual units).",
+        note="Trusted: harness projection, numpy-quaternion conversions, TLC. Exact family has denominator-4 entries and unit pivots; other inputs are covered by residual bounds (4096 growth-aware units).",
+        design_ref="5/C07"),
 }
 
 NOT_YET = "check not built yet in this round; see DESIGN.md section 5"
